@@ -8,7 +8,10 @@ from .. import framework as fw
 from . import inst_common as ic
 
 GEN_SECTIONS = ["Tables", "Regexes", "Unicode"]
+# arithmetic leaf functions whose ASTs are dumped from /repo and proved equal to the hand model (lean/Chartparse/Tie/<X>.lean)
+LEAVES = {'NoteDur': 'notedur'}
 TRUSTED = [
+    "leaf ties: Py.evalBody (embedded Python subset, validated against CPython on random expressions and against the real leaf functions every run) + the AST dump",
     "Lean 4 kernel; axioms ⊆ {propext, Classical.choice, Quot.sound}",
     "hand model of _compute_hopo_state and of round(resolution / 3) in binary64; generated EIGHTH_TRIPLET value and Note table",
     "tied by differential execution of the real _compute_hopo_state and of whole charts",
